@@ -195,10 +195,13 @@ func (e *Exec) lockAcquire(fr *Frame, st *State, id string, lock Val, pos token.
 	d := e.w.discipline()
 	held := e.hget(st, "G_held")
 	cls := e.classOf(lock)
+	if lc, ok := d.classes[cls]; ok && lc.Rank > 0 {
+		// the class of a lock is a static fact about where it lives
+		e.sc.assume(st.reach, fmt.Sprintf("(= (%s %s) %d)", e.lockclassFun(), id, lc.Rank))
+	}
 	e.sc.oblig(st.reach, not(sel(held, id)), e.obName("lock-reentry"), "lock", "lock may already be held by this goroutine (self-deadlock): "+cls, e.pos(pos))
 	if lc, ok := d.classes[cls]; ok && lc.Rank > 0 {
 		f := e.lockclassFun()
-		e.sc.assume(st.reach, fmt.Sprintf("(= (%s %s) %d)", f, id, lc.Rank))
 		q := e.sc.freshName("q.l")
 		e.sc.oblig(st.reach, fmt.Sprintf("(forall ((%s Int)) (=> (select %s %s) (< (%s %s) %d)))", q, held, q, f, q, lc.Rank),
 			fmt.Sprintf("%s#lock-order.%s", e.unit, cls)+e.siteSuffix("lock-order."+cls), "lock", "every lock already held must be lower in the declared lock order than "+cls, e.pos(pos))
